@@ -165,14 +165,24 @@ map, hence without repetition), `finalize` gets releases that `begin` returned. 
 def okOp (s : St) : Op → Prop
   | .retain _ => True
   | .begin ks => ks.Nodup ∧ ∀ k ∈ ks, 1 ≤ s.own k
-  | .finalize ks => ∀ k ∈ ks, ∃ e, s.ent k = some e ∧ e.deleting = true
+  | .finalize ks => ∀ k ∈ ks, (s.ent k).map (·.deleting) = some true
   | .forget k => 1 ≤ s.own k
   | .resume _ => True
+
+instance (s : St) (op : Op) : Decidable (okOp s op) := by
+  cases op <;> unfold okOp <;> infer_instance
 
 /-- every operation of the history respects the discipline at the state it is issued in. -/
 def Valid : St → List Op → Prop
   | _, [] => True
   | s, op :: ops => okOp s op ∧ Valid (step s op).1 ops
+
+instance : ∀ (ops : List Op) (s : St), Decidable (Valid s ops)
+  | [], _ => by unfold Valid; infer_instance
+  | op :: ops, s => by
+    unfold Valid
+    have := instDecidableValid ops (step s op).1
+    infer_instance
 
 /-! ### hand-over between two trackers (`TransferRetainedUdpConnStateTuplesFrom`) -/
 
